@@ -135,14 +135,29 @@ func (pc ParseContext) Parse(ctx context.Context, s *parser.Scanner) (ast.Branch
 				panic("wat?")
 			}
 			relScope := rscopes[len(rscopes)-1]
-			macro, err := pc.unpackMacro(ctx, elt.(parser.Node), ruleElt.(parser.Node), relScope)
+			var macro Macro
+			var subg parser.Grammar
+			var parsers parser.Parsers
+			// The macro is an arbitrary value; unpacking and compiling one that is
+			// not a grammar with transforms panics in many places.
+			err := func() (err error) {
+				defer func() {
+					if r := recover(); r != nil {
+						err = fmt.Errorf("invalid macro: %v", r)
+					}
+				}()
+				macro, err = pc.unpackMacro(ctx, elt.(parser.Node), ruleElt.(parser.Node), relScope)
+				if err != nil {
+					return err
+				}
+				subg = wbnf.NewFromAst(rel.ASTNodeFromValue(macro.grammar))
+				parsers = subg.Compile(subg)
+				return nil
+			}()
 			if err != nil {
 				return nil, err
 			}
-
-			subg := wbnf.NewFromAst(rel.ASTNodeFromValue(macro.grammar))
 			rule := parser.Rule(macro.ruleName)
-			parsers := subg.Compile(subg)
 
 			childast, err := parsers.ParseWithExternals(rule, input, parser.ExternalRefs{
 				"*:{()}:": func(scope parser.Scope, _ *parser.Scanner) (parser.TreeElement, error) {
